@@ -21,7 +21,7 @@ import time
 
 VERIF = os.path.dirname(os.path.abspath(__file__))
 REPO = os.environ.get("VERIF_REPO", "/repo")
-BUILD = os.path.join(VERIF, "build")
+BUILD = os.path.join(VERIF, "build") if REPO == "/repo" else os.path.join(VERIF, "build", "alt-" + hashlib.sha1(REPO.encode()).hexdigest()[:8])
 SHIMROOT = "internal/verifshim"
 MOD = "github.com/sourcegraph/zoekt"
 
@@ -202,7 +202,7 @@ def run_check(pid, tier, replay_case=None, quiet=False):
     known = [k for k in known_findings() if k.get("property") == pid and k.get("status", "known") == "known"]
     unlisted = []
     listed = {}
-    rdir = os.path.join(VERIF, "replays" if REPO == "/repo" else "build/replays-scratch", pid)
+    rdir = os.path.join(VERIF, "replays", pid) if REPO == "/repo" else os.path.join(BUILD, "replays-scratch", pid)
     for v in rep.get("violations_list") or []:
         hit = None
         for k in known:
@@ -234,7 +234,7 @@ def run_check(pid, tier, replay_case=None, quiet=False):
             first = (m.group(1) if m else pr.stdout[-600:]).strip()
             frames = re.findall(r"^  ([\w./()*-]+)\(\)", pr.stdout, re.M)[:2]
             key = "data race under -race: " + " <- ".join(frames) if races else "race pass failed: " + first[:120]
-            rp = os.path.join(VERIF, "replays" if REPO == "/repo" else "build/replays-scratch", pid)
+            rp = os.path.join(VERIF, "replays", pid) if REPO == "/repo" else os.path.join(BUILD, "replays-scratch", pid)
             os.makedirs(rp, exist_ok=True)
             rpf = os.path.join(rp, "race.json")
             with open(rpf, "w") as f:
